@@ -63,11 +63,10 @@ def run(tier, replay=None):
     # values produced by maximize/minimize come from the tables: every stored integer must decode to canonical text (shared with C18)
     from . import tables
     tables.likely(common.program('K1'), rep)
-    try:
-        from . import parse
-        parse.store_obligations(prog, rep)
-    except ImportError:
-        rep.notes.append('parser-side provenance of stored subtags (every consumed subtag stored through its validator) is part of the C03 tables')
+    # values obtained by parsing: every consumed subtag is stored through its validator into its own slot (parser tables, shared with C03)
+    from . import parserules
+    for which in ('core', 'dispatch', 'unicode', 'transform', 'private'):
+        parserules.check(prog, rep, which)
     rep.explanation = ('The printed string is canonical because (a) the emission grammar of every Display impl equals the canonical grammar (order language/script/region/variants; t, u, x; '
                        'attributes before keywords; tlang before tfields; only the literals "-", "-u", "-t", "-x", "und"; each optional part iff present; every element; nothing when empty) - '
                        'decided by automaton equivalence on the MIR-derived emission automaton; (b) what is printed verbatim is canonical text: every validator accepts exactly its production and '
